@@ -114,6 +114,7 @@ class Crossing:
     gmax: float
     fpp: float              # max |f''| over [t - dt, t + dt] (conditioning of the linear crossing fraction)
     speed: float            # max |x'| at the crossing
+    excursion: float = 0.0  # min(|f(t - 2dt)|, |f(t + 2dt)|): how far the section coordinate moves away on both sides
 
 
 def direction_value(red: ReducedH, section: str, Y):
@@ -158,7 +159,8 @@ def reference_crossings(red: ReducedH, section: str, x0, T, dt, grid=None):
         tw = np.linspace(max(0.0, tc - dt), min(T, tc + dt), 9)
         fd = np.array([red.rhs(0.0, y)[idx] for y in sol.sol(tw).T])
         fpp = float(np.abs(np.gradient(fd, tw)).max())
-        out.append(Crossing(float(tc), np.array(xc), float(fc[idx]), float(g.min()), float(g.max()), fpp, float(np.abs(fc).max())))
+        exc = float(np.abs(sol.sol(np.array([max(0.0, tc - 2.0 * dt), min(T, tc + 2.0 * dt)]))[idx]).min())
+        out.append(Crossing(float(tc), np.array(xc), float(fc[idx]), float(g.min()), float(g.max()), fpp, float(np.abs(fc).max()), exc))
     return out, sol
 
 
@@ -225,6 +227,10 @@ class Obs:
     labels: tuple | None = None
     records: list = field(default_factory=list)
     wall: float = 0.0
+    got_points: np.ndarray | None = None      # CenterManifoldMap.get_points(section_coord)
+    axes: tuple | None = None                 # axes asked from CenterManifoldMap.get_states(section_coord, axes)
+    got_axes: np.ndarray | None = None
+    accessor_error: str | None = None
 
 
 class Recorder:
@@ -309,7 +315,7 @@ class Env:
         return cm, CenterManifoldMap(cm, float(energy))
 
 
-def compute_map(env: Env, cfg: Cfg, rec: Recorder) -> Obs:
+def compute_map(env: Env, cfg: Cfg, rec: Recorder, axes=None) -> Obs:
     import numba
     from hiten.algorithms.poincare.centermanifold.config import CenterManifoldMapConfig
     from hiten.algorithms.poincare.centermanifold.options import CenterManifoldMapOptions
@@ -342,6 +348,16 @@ def compute_map(env: Env, cfg: Cfg, rec: Recorder) -> Obs:
         obs.error = f"{type(e).__name__}: {e}"
     obs.wall = time.time() - t0
     obs.records = rec.take()
+    if obs.error is None and axes is not None and len(obs.states):
+        try:                         # accessors of the same (memoised) section: no further back-end call expected
+            obs.axes = tuple(axes)
+            obs.got_points = np.array(pm.get_points(section_coord=cfg.section), dtype=float, copy=True)
+            obs.got_axes = np.array(pm.get_states(section_coord=cfg.section, axes=tuple(axes)), dtype=float, copy=True)
+        except Exception as e:
+            obs.accessor_error = f"{type(e).__name__}: {e}"
+        extra = rec.take()
+        if extra:
+            obs.accessor_error = (obs.accessor_error or "") + f" accessors triggered {len(extra)} further back-end calls"
     if cm.dynamics.hamsys is not env.hamsys:
         raise Inconclusive("fresh CenterManifold did not share the Hamiltonian system the oracle was built from")
     return obs
@@ -500,6 +516,24 @@ def check_structure(ctx, env, obs):
                            "points_equal_state_columns_q2_p2": bool(P.shape == (len(S), 2) and np.array_equal(P, S[:, [0, 1]]))}, mech)
     elif len(S):
         ctx.check(False, "1:labels name two centre-manifold coordinates", {**base, "labels": labels})
+    if obs.axes is not None and len(S):
+        if obs.accessor_error:
+            ctx.skip("accessor raised or recomputed: " + obs.accessor_error[:60])
+        else:
+            expect_ax = S[:, [COLS[obs.axes[0]], COLS[obs.axes[1]]]]
+            G = obs.got_axes
+            good = G is not None and G.shape == expect_ax.shape and bool(np.array_equal(G, expect_ax))
+            mech = None
+            if not good and G is not None and f11_classifier(sec, labels, P, S):
+                # the accessor takes an axis that is one of the labels from `points`: same wrong columns
+                pred = np.column_stack([P[:, list(labels).index(a)] if a in labels else S[:, COLS[a]] for a in obs.axes])
+                if G.shape == pred.shape and np.array_equal(G, pred):
+                    mech = MECH_F11
+            ctx.check(good, "1:get_states(section, axes) returns the state columns named by axes",
+                      lambda: {**base, "axes": obs.axes, "returned_head": None if G is None else G[:3], "expected_head": expect_ax[:3],
+                               "states_head": S[:3]}, mech)
+            ctx.check(obs.got_points is not None and obs.got_points.shape == P.shape and np.array_equal(obs.got_points, P),
+                      "1:get_points(section) returns the points of the computed map", lambda: {**base, "got_head": obs.got_points[:3], "points_head": P[:3]})
     # ---- returned rows are exactly the back-end successors (each once, with its time)
     enf = [enforce(r.states, sec) for r in obs.records]
     allS = np.vstack(enf) if enf else np.empty((0, 4))
@@ -559,7 +593,8 @@ def check_energy(ctx, env, obs, ok):
 
 
 def _definitely_admissible(c, crossings, dt, m, t_end):
-    if not (c.gmin > m and c.t > 2.0 * dt and abs(c.slope) >= 1e-2 and c.t + 2.0 * dt <= t_end):
+    # the crossing must be unmistakable for a trajectory that is only m-accurate: clear direction value, clear sign change
+    if not (c.gmin > m and c.t > 2.0 * dt and abs(c.slope) >= 1e-2 and c.t + 2.0 * dt <= t_end and c.excursion > m):
         return False
     return not any(o is not c and abs(o.t - c.t) <= 2.0 * dt for o in crossings)
 
@@ -693,7 +728,9 @@ def main_sweep(ctx, envs, rec, cfgs, n_ref):
         if not ctx.mine(i):
             continue
         env = envs[(cfg.point, cfg.degree)]
-        obs = compute_map(env, cfg, rec)
+        names = list(COLS)
+        ax = tuple(names[j] for j in ctx.rng.choice(4, size=2, replace=False))
+        obs = compute_map(env, cfg, rec, axes=ax)
         if i < 4 and obs.error is None:
             ctx.sample({"config": asdict(cfg), "labels": obs.labels, "n_states": len(obs.states), "states_head": obs.states[:2],
                         "points_head": obs.points[:2], "backend_calls": len(obs.records),
